@@ -45,9 +45,17 @@ def check_function(effects, func, cls):
     ldefs = _local_defs(func)
     n_calls = 0
     for c in ast.walk(func):
-        if not isinstance(c, ast.Call) or any(isinstance(x, ast.Starred) for x in c.args) or not c.args:
+        if not isinstance(c, ast.Call) or not c.args:
+            continue
+        pos = []
+        for x in c.args:            # positional arguments before the first *args
+            if isinstance(x, ast.Starred):
+                break
+            pos.append(x)
+        if not pos:
             continue
         cands = effects.resolve(c, cls, ldefs, sname)
+        cands = [f for f in (cands or []) if f is not func]      # a delegating wrapper does not call itself through another object
         if not cands:
             continue
         sigs = set()
@@ -58,21 +66,28 @@ def check_function(effects, func, cls):
             if owner and 'staticmethod' not in decs:
                 ps = ps[1:]
             sigs.add(tuple(ps))
-        if len(sigs) != 1:
-            continue
-        params = list(sigs.pop())
         n_calls += 1
-        for i, arg in enumerate(c.args):
-            if i >= len(params):
-                break
-            rn = role_name(arg)
-            if rn is None or rn == params[i]:
-                continue
-            if rn in params:
-                j = params.index(rn)
-                # the slot the name belongs to must not be served by the same name (f(x, x) style calls are not swaps)
-                served = (j < len(c.args) and role_name(c.args[j]) == rn) or any(k.arg == rn for k in c.keywords)
-                if not served or (j < len(c.args) and role_name(c.args[j]) == params[i]):
-                    out.append((c, f'argument {U.src(arg)[:40]} is passed as parameter `{params[i]}` (position {i + 1}) of {cands[0].name}(), '
-                                   f'which has a parameter named `{rn}` at position {j + 1}'))
+        per_sig = []
+        for params in sigs:
+            hits = {}
+            for i, arg in enumerate(pos):
+                if i >= len(params):
+                    break
+                rn = role_name(arg)
+                if rn is None or rn == params[i]:
+                    continue
+                if rn in params:
+                    j = params.index(rn)
+                    # the slot the name belongs to must not be served by the same name (f(x, x) style calls are not swaps)
+                    served = (j < len(pos) and role_name(pos[j]) == rn) or any(k.arg == rn for k in c.keywords)
+                    if not served or (j < len(pos) and role_name(pos[j]) == params[i]):
+                        hits[i] = (f'argument {U.src(arg)[:40]} is passed as parameter `{params[i]}` (position {i + 1}) of {cands[0].name}(), '
+                                   f'which has a parameter named `{rn}` at position {j + 1}')
+            per_sig.append(hits)
+        # reported only when the argument is misplaced under every definition the call may reach
+        common = set(per_sig[0]) if per_sig else set()
+        for h in per_sig[1:]:
+            common &= set(h)
+        for i in sorted(common):
+            out.append((c, per_sig[0][i]))
     return out, n_calls
